@@ -9,8 +9,20 @@
    around the printed pieces) is decided on every run by the correspondence
    stream on hostile strings and the token search on the implementation; its
    proof is listed as missing in the evidence.  At the level of one printf call
-   the non-interference theorem is proved for ARBITRARY bytes (below). *)
-From Errv Require Import Base.Str Redact.Markers Redact.Buffer Proofs.RedactFacts Proofs.RedactWf.
+   the non-interference theorem is proved for ARBITRARY bytes (below).
+
+   UPDATE: the theorem through the WHOLE ENGINE is proved (Proofs/EngineNI.v, 2,300 lines):
+   C03_engine_short / C03_engine_verbose -- for any two errors related by [ueq] (same tree, same
+   safe material, ARBITRARY different contents in every unsafe position of the model: foreign
+   leaf messages, hints, details, unsafe tag values, paths, foreign wrapper messages, opaque
+   messages and prefixes, mark messages, hidden errors recursively), what Redact() leaves of
+   %v / %s and of %+v is the same.  The relation asks of two unsafe strings the same LINE
+   SHAPE; for strings the engine writes itself the shape must also distinguish lines of
+   0 / 1 / 2+ bytes: C03_line_length_observable is the witness (Redact() output differs between
+   "\na" and "\nbc": the engine glues a one-byte line to the previous one).  That is a
+   length side channel of one bit per line, not content; it is stated, not hidden. *)
+From Errv Require Import Base.Str Redact.Markers Redact.Buffer Model.Err Model.Sem Model.Report
+     Proofs.RedactFacts Proofs.RedactWf Proofs.EngineWf Proofs.EngineNI.
 
 (* ---- non-interference for ARBITRARY BYTES (Proofs/RedactWf.v): what Redact()
    leaves of a printf call does not depend on the content of an unsafe argument,
@@ -47,6 +59,39 @@ Theorem C03_noninterference_arg_partial : forall s1 s2,
   redact (sprint_pieces [PUnsafe s1]) = redact (sprint_pieces [PUnsafe s2]).
 Proof. intros. now rewrite !redact_unsafe_ascii. Qed.
 Print Assumptions C03_noninterference_arg_partial.
+
+(* ---- the whole formatting engine ---- *)
+Theorem C03_engine_short : forall e1 e2, ueq e1 e2 -> sh_ok e1 -> sh_ok e2 ->
+  redact (fmt_red_short e1) = redact (fmt_red_short e2).
+Proof. exact ni_short. Qed.
+Print Assumptions C03_engine_short.
+
+Theorem C03_engine_verbose : forall e1 e2, ueq e1 e2 -> vb_ok e1 -> vb_ok e2 -> glue_top e1 -> glue_top e2 ->
+  redact (fmt_red_verbose e1) = redact (fmt_red_verbose e2).
+Proof. exact ni_verbose. Qed.
+Print Assumptions C03_engine_verbose.
+
+(* for an ordinary foreign leaf the relation only asks for the same line shape of the two messages *)
+Theorem C03_leaf_relation : forall k1 k2,
+  lsent 1%positive k1 = false -> lsent 1%positive k2 = false ->
+  sh3 (leaf_text k1) = sh3 (leaf_text k2) -> frel k1 k2.
+Proof. exact frel_plain. Qed.
+Print Assumptions C03_leaf_relation.
+
+(* the finer shape is needed: same positions of line breaks, different Redact() output *)
+Theorem C03_line_length_observable :
+  let e1 := Leaf 1%positive (LErrString [nl; 97]) in
+  let e2 := Leaf 1%positive (LErrString [nl; 98; 99]) in
+  shape [nl; 97] = shape [nl; 98; 99] /\ sh_ok e1 /\ sh_ok e2 /\
+  redact (fmt_red_short e1) = m_redacted /\ redact (fmt_red_short e2) = nl :: m_redacted.
+Proof. exact ni_short_false_shape. Qed.
+Print Assumptions C03_line_length_observable.
+
+(* an evaluated instance: hint, prefix, secondary error, opaque leaf with different unsafe contents *)
+Example C03_engine_example :
+  redact (fmt_red_short ex_e1) = redact (fmt_red_short ex_e2) /\
+  redact (fmt_red_verbose ex_e1) = redact (fmt_red_verbose ex_e2).
+Proof. exact ni_example. Qed.
 
 Example C03_example :
   redact (sprint_pieces [PLit (lit "user "); PUnsafe (lit "alice"); PLit (lit " denied")])
